@@ -239,8 +239,11 @@ def run(ctx):
             fields = [hq.self_fields(e["l"])[0] for e in pth.events if e.get("k") == "Assign"]
             copies = [e for e in pth.events if e.get("k") == "MethodCall"]
             allocs = sorted(H.strip_generics(H.callee(e) or "").split("::")[-1] for e in pth.events if e.get("k") == "Call")
-            empty = any(kind == "if" and not pos and bix.canon(node) == "(0 != self.cap)" for kind, node, pos in pth.conds) or \
-                any(kind == "if" and pos and bix.canon(node) == "(0 == self.cap)" for kind, node, pos in pth.conds)
+            # a test of the *old* capacity: it has to sit before the first write of the positions on this path
+            first = min([e["sp"][0] for e in pth.events if e.get("k") == "Assign"] or [1 << 62])
+            early = [(kind, node, pos) for kind, node, pos in pth.conds if isinstance(node, dict) and (node.get("sp") or [1 << 62])[0] < first]
+            empty = any(kind == "if" and not pos and bix.canon(node) == "(0 != self.cap)" for kind, node, pos in early) or \
+                any(kind == "if" and pos and bix.canon(node) == "(0 == self.cap)" for kind, node, pos in early)
             if "cap" not in fields and "buf" not in fields:
                 okp = not fields and not copies and not allocs          # nothing happens
             elif empty:
